@@ -43,17 +43,18 @@ from .util import canon, u
 PURE_SELF_METHODS: set[str] = set()
 
 
-def _loop_leaves(loop: ast.stmt) -> bool:
-    """Does the body of `loop` contain a `return` of its own (not inside a nested def / lambda)?"""
+def _loop_returns(loop: ast.stmt) -> list[ast.Return]:
+    """The `return` statements of the body of `loop` itself (not of a nested def / lambda), in source order."""
+    found: list[ast.Return] = []
     todo = list(ast.iter_child_nodes(loop))
     while todo:
         n = todo.pop()
         if isinstance(n, (ast.FunctionDef, ast.AsyncFunctionDef, ast.Lambda, ast.ClassDef)):
             continue
         if isinstance(n, ast.Return):
-            return True
+            found.append(n)
         todo.extend(ast.iter_child_nodes(n))
-    return False
+    return sorted(found, key=lambda r: (getattr(r, "lineno", 0), getattr(r, "col_offset", 0)))
 
 
 class SymUnsupported(AnalysisError):
@@ -613,9 +614,6 @@ class SymExec:
             sub = _Subst(p.env).visit(copy.deepcopy(hdr))
             self._log(p, hdr, sub, ln)
             p.effects.append(Effect("loop", sub, p.epoch, ln, s))
-            if os.environ.get("VERIF_STRICT_LOOPS") and _loop_leaves(s):
-                raise SymUnsupported(f"line {ln}: a loop the walker treats as opaque contains a return "
-                                     "(the early exit would be dropped)")
             bound: set[str] = set()
             for n in ast.walk(s):
                 if isinstance(n, ast.Name) and isinstance(n.ctx, (ast.Store, ast.Del)):
@@ -629,7 +627,19 @@ class SymExec:
             for b in bound:
                 p.env[b] = ast.Name(id=f"<{b}@loop{ln}>", ctx=ast.Load())
             p.epoch += 1
-            return [(p, "next")]
+            out = []
+            # A `return` inside the (opaque) body is an exit the function may take: one may-return path per such
+            # statement, its value read with the loop-bound names havocked and without the body's guards (an
+            # over-approximation; VERIF_LOOP_RETURNS=0 restores the old behaviour of dropping these exits).
+            if os.environ.get("VERIF_LOOP_RETURNS", "1") != "0":
+                for r in _loop_returns(s):
+                    q = p.fork()
+                    q.ret = None if r.value is None else _Subst(q.env).visit(copy.deepcopy(r.value))
+                    q.exit, q.lineno = "return", getattr(r, "lineno", ln)
+                    q.effects.append(Effect("loop-return", q.ret, q.epoch, q.lineno, r))
+                    out.append((q, "return"))
+            out.append((p, "next"))
+            return out
         if isinstance(s, (ast.With, ast.AsyncWith)):
             cur = [p]
             for item in s.items:
